@@ -179,6 +179,15 @@ func (o RenderOpts) sp() string {
 	return " "
 }
 
+// tsp is the space around a comparator, '+', '=' of a SET action, or between IN / NOT and an opening
+// parenthesis: it may be absent altogether ("a=:v", "a<>:v", "NOT(", "IN(").
+func (o RenderOpts) tsp() string {
+	if o.Rng != nil && o.Rng.Intn(3) == 0 {
+		return ""
+	}
+	return o.sp()
+}
+
 func (o RenderOpts) osp() string { // optional space
 	if o.Rng == nil {
 		return ""
@@ -210,7 +219,7 @@ func (c *Cond) render(names map[string]string, o RenderOpts, parentPrec int) str
 	var s string
 	switch c.Op {
 	case "cmp":
-		s = renderOperand(c.Args[0], names) + o.sp() + c.Cmp + o.sp() + renderOperand(c.Args[1], names)
+		s = renderOperand(c.Args[0], names) + o.tsp() + c.Cmp + o.tsp() + renderOperand(c.Args[1], names)
 	case "between":
 		s = renderOperand(c.Args[0], names) + o.sp() + "BETWEEN" + o.sp() + renderOperand(c.Args[1], names) + o.sp() + "AND" + o.sp() + renderOperand(c.Args[2], names)
 	case "in":
@@ -218,7 +227,7 @@ func (c *Cond) render(names map[string]string, o RenderOpts, parentPrec int) str
 		for _, a := range c.Args[1:] {
 			parts = append(parts, renderOperand(a, names))
 		}
-		s = renderOperand(c.Args[0], names) + o.sp() + "IN" + o.sp() + "(" + o.osp() + strings.Join(parts, ","+o.osp()) + o.osp() + ")"
+		s = renderOperand(c.Args[0], names) + o.sp() + "IN" + o.tsp() + "(" + o.osp() + strings.Join(parts, o.osp()+","+o.osp()) + o.osp() + ")"
 	case "exists":
 		s = "attribute_exists(" + o.osp() + renderOperand(c.Args[0], names) + o.osp() + ")"
 	case "notexists":
@@ -230,7 +239,12 @@ func (c *Cond) render(names map[string]string, o RenderOpts, parentPrec int) str
 	case "contains":
 		s = "contains(" + o.osp() + renderOperand(c.Args[0], names) + "," + o.osp() + renderOperand(c.Args[1], names) + ")"
 	case "not":
-		s = "NOT" + o.sp() + c.Kids[0].render(names, o, 3)
+		kid := c.Kids[0].render(names, o, 3)
+		if strings.HasPrefix(kid, "(") {
+			s = "NOT" + o.tsp() + kid
+		} else {
+			s = "NOT" + o.sp() + kid
+		}
 	case "and":
 		// left-associative: right child of equal precedence needs parentheses to keep the tree,
 		// but AND is associative in value, so both are rendered flat when precedence allows.
